@@ -117,7 +117,7 @@ func (vm *VM) GetLocals(locals []Object) []Object {
 func (vm *VM) Abort() {
 	verifSync(vm, "abort.begin")
 	vm.pool.abort()
-	verifSync(vm, "abort.pooldone")
+	verifSync(vm, "abort.mid")
 	vm.abort.Store(1)
 	verifSync(vm, "abort.end")
 }
@@ -142,6 +142,7 @@ func (vm *VM) Run(globals Object, args ...Object) (Object, error) {
 	vm.err = nil
 	vm.abort.Store(0)
 	verifSync(vm, "run.reset")
+	verifSync(vm, "run.rechecked")
 	vm.initGlobals(globals)
 	vm.initLocals(args)
 	vm.initCurrentFrame()
